@@ -67,7 +67,7 @@ def compare_case(ctx, case, exp):
     ok = True
     reals = {}
     for which in ("fsdp", "hsdp"):
-        real = adapter.real_split_recovery(which, case["shape"], case["s"], case["e"])
+        real = adapter.real_split_recovery(which, case["shape"], case["s"], case["e"], case.get("layout", "contig"))
         reals[which] = real
         proj = [{"off": p["off"], "len": p["len"], "shp": p["shp"]} for p in real]
         if proj != exp:
@@ -75,7 +75,7 @@ def compare_case(ctx, case, exp):
             ctx.violation(f"{which} split recovery differs from spec on {case}: expected {exp}, observed {proj}",
                           {"kind": "split_recovery_oracle", "copy": which, "clause": "pieces"}, {"case": case})
         for p in real:
-            if not (p["view"] and p["contiguous_values"]):
+            if not (p["view"] and p["contiguous_values"] and p["write_through"]):
                 ok = False
                 ctx.violation(f"{which} split recovery piece is not a view of the shard / wrong content on {case}: {p}",
                               {"kind": "split_recovery_oracle", "copy": which, "clause": "view"}, {"case": case})
@@ -113,7 +113,13 @@ def run(ctx):
             per = -(-N // k)
             s, e = min(N, r * per), min(N, (r + 1) * per)
         cases.append({"shape": sh, "s": s, "e": e})
-    exp = oracle_eval(cases)
+    # shards that are windows of a larger flat buffer (non-zero storage offset: FSDP's per-parameter shards) or strided
+    extra = []
+    for i, c in enumerate(cases):
+        if c["e"] > c["s"] and (i % (7 if quick else 3) == 0 or i >= n_exh):
+            extra.append(dict(c, layout=("offset", "strided")[i % 2] if i < n_exh else rng.choice(["offset", "strided"])))
+    cases += extra
+    exp = oracle_eval([{k: c[k] for k in ("shape", "s", "e")} for c in cases])
     nontrivial = 0
     for c, e in zip(cases, exp):
         compare_case(ctx, c, e)
@@ -131,7 +137,8 @@ def run(ctx):
     ctx.put("exhaustive", True)
     ctx.put("rule", f"MC: every shape with order<={o}, numel<={n}, every 0<=s<=e<=numel (Partition, ValidPiece, minimality by DP); "
                     f"oracle: every shape with order<={oo}, numel<={on} and every (s,e) ({n_exh} triples) plus seeded random large "
-                    f"shapes, both copies, compared piece by piece (offset, length, shape, view-of-shard, content); "
+                    f"shapes, both copies, compared piece by piece (offset, length, shape, view-of-shard, content, write-through), also for shards that "
+                    f"are offset windows or strided slices of a larger buffer; "
                     f"non-trivial = at least two pieces")
     ctx.sample({"case": cases[n_exh // 2], "expected": norm_exp(exp[n_exh // 2])})
     ctx.sample({"case": cases[-1], "expected": norm_exp(exp[-1])})
@@ -142,5 +149,5 @@ def replay(ctx, data):
     case = data["replay"]["case"]
     if case is None:
         return run(ctx)
-    compare_case(ctx, case, oracle_eval([case])[0])
+    compare_case(ctx, case, oracle_eval([{k: case[k] for k in ("shape", "s", "e")}])[0])
     ctx.add("evaluations")
